@@ -177,7 +177,11 @@ theorem invoke_marks_other {j : Nat} {tj : Task} (htj : pr.tasks[j]? = some tj) 
           exact isUpToDate_marks_other H pr tj e.now s x hx
     | force =>
       rw [invoke_force Cfg.fixed H pr htj]
-      exact runBody_marks_other Cfg.fixed H pr j tj e s x hx
+      rw [runBody_marks_other Cfg.fixed H pr j tj e _ x hx]
+      unfold forceStart
+      split
+      · rfl
+      · exact isUpToDate_marks_other H pr tj e.now s x hx
     | dry => simp [Mode.readOnly] at hro
     | status => simp [Mode.readOnly] at hro
     | listJson => simp [Mode.readOnly] at hro
@@ -208,7 +212,9 @@ theorem invoke_log (j : Nat) (m : Mode) (e : Env) (s : State) :
             exact this
       | force =>
         rw [invoke_force Cfg.fixed H pr htj]
-        exact runBody_log Cfg.fixed H pr j tj false e s
+        have := runBody_log Cfg.fixed H pr j tj false e (forceStart H pr tj e s)
+        rw [(forceStart_effect H pr tj e s).1] at this
+        exact this
       | dry => simp [Mode.readOnly] at hro
       | status => simp [Mode.readOnly] at hro
       | listJson => simp [Mode.readOnly] at hro
